@@ -367,9 +367,16 @@ pub fn lockstep(
                 }
             }
         }
-        // a run that ended with an error item is over
+        // a run that ended with an error item is over, unless the reference knows how it
+        // goes on; even then only rows that are still yielded are judged (an implementation
+        // that ends the iteration after an error item is not at fault)
         if !matches!(step.item, Item::Row(_) | Item::End) {
-            return None;
+            if !rs.continues {
+                return None;
+            }
+            if matches!(it.steps.get(j + 1).map(|s| &s.item), Some(Item::End) | None) {
+                return None;
+            }
         }
     }
     None
@@ -831,6 +838,17 @@ pub fn c04_decode(case: &Case, out: &RunOut, it: &IterHist) -> Option<Violation>
     let mut last_read: u64 = 0; // the constructor's call
     let mut triple_anchor: Option<u64> = None;
     for (j, s) in it.steps.iter().enumerate() {
+        if let Item::RuntimeErr(_) = &s.item {
+            // (continue-after-error mode) a runtime error that came with a successful call
+            // can only be a checked row whose answer was received and then found wanting
+            if s.calls.1 > s.calls.0
+                && matches!(it.calls[s.calls.1 - 1].answer, ModelAnswer::Ok(_))
+            {
+                last_read = (s.calls.1 - 1) as u64;
+                triple_anchor = None;
+            }
+            continue;
+        }
         let Item::Row(row) = &s.item else { continue };
         if s.calls.1 == s.calls.0 {
             continue;
